@@ -114,15 +114,20 @@ CLAIMED["C05"] = dict(
 
 CLAIMED["C12"] = dict(
     text="Heap model with STORED _root/_treepath caches updated exactly where node.py updates them (so staleness is expressible). "
-         "Kernel-checked for branches of every depth and branching: C12_relabel — the recursive refresh done by add / graft / cut / "
-         "force-add makes the WHOLE moved branch consistent with its new position (the repaired defect); C12_shape — the branch "
-         "arrives with its internal shape intact; C12_add — add_to_tree into any consistent tree keeps it consistent; C12_remove — "
-         "cutting a branch out keeps the rest consistent; C12_refused_* — forbidden operations change nothing.",
-    note="PARTIAL: the lift of these lemmas to a single invariant over whole heaps for graft / cut (incl. 'every id occurs exactly "
-         "once', i.e. no node lost or duplicated) is not proved; it is checked after EVERY operation of every generated sequence "
-         "by a full forest snapshot compared with the model and by the direct well-formedness predicate. Grafts of a node onto its "
-         "own descendant are excluded (the property's own exclusion).",
-    technique="Lean 4 structural-induction proofs on a heap model + differential correspondence with full snapshots after every operation",
+         "Invariant by induction over operations: Inv (ids occur once in the whole forest, names distinct, every node below a Root "
+         "records that Root and its real treepath, other top-level objects are single unrooted nodes). C12_step: add / force-add / "
+         "graft (from a node or a Root, every option) / cut / object creation / metadata assignment each keep Inv; C12_history: so "
+         "does EVERY finite sequence satisfying the quantifier's side conditions (legalSeq: fresh names, no graft onto an own "
+         "descendant); C12_nodes_conserved: no node lost or duplicated (the (id,name) multiset is kept exactly); C12_reports_root, "
+         "C12_lookup_own_path (the walk and the absolute lookup of a node's recorded path return that node), C12_one_place, "
+         "C12_relabel / C12_shape (moved branch arrives intact, whole branch refreshed), C12_refused_* (forbidden operations "
+         "change nothing).",
+    note="Histories that cut the same node from the same Root twice create two Roots of one name and fall outside legalSeq "
+         "(all-names-distinct form of the invariant); the check evaluates legalSeq with the Lean definition on every tested history "
+         "and records the share (155/200 at seed 0); for the others the per-operation snapshot comparison with the model and the "
+         "direct well-formedness predicate are the evidence. Grafts of a node onto its own descendant are excluded (the property's "
+         "own exclusion).",
+    technique="Lean 4 invariant-by-induction proof over all operation histories of a heap model + differential correspondence with full snapshots after every operation",
     design="7 C12")
 CLAIMED["C13"] = dict(
     text="mergeDict is the loop at the end of Node._graft on the receiving root's metadata dict. Kernel-checked for ALL receiver / "
